@@ -89,6 +89,11 @@ class HistFit(FitBase):
     def _init_nexus(self):
         super(HistFit, self)._init_nexus()
 
+        # single-axis fit: the names under which a MultiFit looks up the quantities of its chi2 members (shared errors)
+        self._nexus.add_alias("y_data", alias_for="data")
+        self._nexus.add_alias("y_model", alias_for="model")
+        self._nexus.add_alias("y_total_cov_mat", alias_for="total_cov_mat")
+
         self._nexus.add_dependency("model", depends_on=("parameter_values", "data"))
 
     def _set_new_data(self, new_data):
